@@ -64,6 +64,12 @@ def scenario(rng):
         sc["speak"] = ["PRIVMSG #sec :psst", "NOTICE #sec :psst", "PRIVMSG @#sec :psst", "PRIVMSG ~&@%+#sec :psst"]
         sc["sec_members"] = members
     else:
+        if rng.random() < 0.4:
+            # the hidden user logs in to a predefined account (+r, 307 in WHOIS): the configuration is the same in both
+            # worlds, only the session differs
+            for key in ("cfg0", "cfg1"):
+                sc[key] = dict(sc[key], users=[{"name": "ivy", "nick": "ivy-nick"}])
+            sc["variant"] = variant = "invisible-registered"
         hid.append(("connect", "inv"))
         hid.append(("inv", "MODE inv +i"))
         hid.append(("inv", "JOIN #pub2"))
